@@ -16,7 +16,7 @@ import random
 ID = "C17"
 BOUND = {
     "quick": "all position sequences over {A, B, C, far} x all gap sequences over {0, 1 s, 2.5 s} for 2..4 fixes (and over "
-             "{A, B} x {0, 1 ms} for 5..6 fixes), 2 date regimes, 3 call orders each; 4000 random ENU tracks of 2..12 fixes "
+             "{A, B} x {0, 1 ms} for 5..6 fixes), 2 date regimes, 1-2 call orders each (rotating through 8); 4000 random ENU tracks of 2..12 fixes "
              "(legs 1e-9 m .. 1e7 m, repeated positions and timestamps, gaps 1 ms .. 1 day), random call order with "
              "repetition",
     "thorough": "as quick with exhaustive part up to 5 fixes (7 over {A, B}), every call order of the list, and 150000 "
